@@ -5,6 +5,7 @@ import io
 import os
 import shutil
 import tarfile
+import time
 
 from vlib import core, e2e, text_oracles
 from vlib.coord_common import first_diff
@@ -433,6 +434,44 @@ def oracle_duplicate_member_names(ctx):
             'rule': 'witnesses of known findings F33 (two members under one path, ustar and gnu), F34 (member path containing the separator) and F35 (same-named symlink entry in front) replayed on the binary: stdout == the members as plain files'}
 
 
+def oracle_large_gz(ctx):
+    """A .gz text log that inflates to MORE than 512 MiB (GZ_MAX_SZ) while being small on disk: the size limit of BlockReader::new is about the
+    file on disk; the streamed reader handles any uncompressed size (seeded change C05-e moved the limit to the uncompressed size). Only the
+    last few messages are asked for (-a), so little is printed; the reader still has to walk the whole stream."""
+    import zlib
+    fails, ev = [], 0
+    base = os.path.join(ctx.work, 'biggz')
+    os.makedirs(base, exist_ok=True)
+    path = os.path.join(base, 'big.log.gz')
+    pad = b'x' * 1990
+    n = 270_000                                   # 270 000 lines of 2 031 bytes = 548 MB
+    t0 = 1700000000
+    co = zlib.compressobj(1, zlib.DEFLATED, 31)
+    last = []
+    with open(path, 'wb') as f:
+        chunk = []
+        for i in range(n):
+            t = t0 + i
+            line = time.strftime('%Y-%m-%d %H:%M:%S', time.gmtime(t)).encode() + b' m%08d ' % i + pad + b'\n'
+            chunk.append(line)
+            if i >= n - 4:
+                last.append(line)
+            if len(chunk) == 2000:
+                f.write(co.compress(b''.join(chunk)))
+                chunk = []
+        f.write(co.compress(b''.join(chunk)))
+        f.write(co.flush())
+    rc, out, err = run(path, ['-a', '+%d' % (t0 + n - 4)])
+    ev += 1
+    if (rc, out) != (0, b''.join(last)):
+        fails.append({'signature': 'container:gz-differs-from-plain', 'detail': f'a {os.path.getsize(path)}-byte .gz inflating to {n * (len(pad) + 41)} bytes with -a at its 4th last message: rc={rc}, '
+                                                                                 f'{out.count(10)} lines printed, 4 expected; stderr {err[-200:]!r}',
+                      'args': e2e.BASE_ARGS + ['-a', '+%d' % (t0 + n - 4), 'big.log.gz']})
+    shutil.rmtree(base, ignore_errors=True)
+    return {'evaluations': ev, 'distinct_nontrivial': ev, 'failures': fails, 'samples': [],
+            'rule': 'a text log of 548 MB (more than GZ_MAX_SZ = 512 MiB) stored as a small .gz, -a at its 4th last message: exactly the last 4 messages are printed'}
+
+
 def oracle_tar_member_names(ctx):
     """One member per archive, its PATH varied: short, nested, longer than the 100-byte ustar name field (ustar prefix split,
     GNU @LongLink, pax path=), non-ASCII (pax). Text and accounting members are read through BlockReader's tar path, journal and
@@ -498,7 +537,8 @@ def oracle(ctx):
     d = oracle_multiblock(ctx)
     e = oracle_multimember_tar(ctx)
     g = oracle_duplicate_member_names(ctx)
-    return core.merge_oracles([a, b, c, d, e, f, g])
+    h = oracle_large_gz(ctx)
+    return core.merge_oracles([a, b, c, d, e, f, g, h])
 
 
 def check(ctx):
